@@ -17,7 +17,7 @@ def check(run, replay=None):
               "ciphertexts, undecodable / compact-tag points, non-canonical scalars, ciphertexts for another secret, short "
               "nonces, x = 0 with garbage, truncated/extended/re-sized frames incl. 256/257 slots. Compared: from_bytes class "
               "and error, verify result, decrypt result. Oracle: honest => accepted and decrypts to x; altered or foreign "
-              "context => rejected; accepted => decrypt = Ok(y) with y*G = Q; no panic."),
+              "context => rejected; accepted => decrypt = Ok(y) with y*G = Q; no panic. A second base proof with a non-default parameter (141 slots quick / 256 thorough) is altered only in slots and opened scalars >= 128, in its size words, and by rewriting its slot count to smaller permitted values."),
         trusted_extra=["harness/src/c09.rs + c10.rs: real rsa / curve25519-dalek / k256 behind the model's oracles; the "
                        "adversaries' own wire codec and challenge computation in c10.rs; ocaml/drv_c09.ml"],
         assumptions=["RSA PKCS#1 v1.5 correctness for the key pair is a hypothesis (rsa_pair_ok)",
